@@ -79,7 +79,8 @@ def make_eval_objects(name, variant, seed):
         if variant in ("param", "both"):
             batch = append_param_batch(batch, {"a": jnp.array([[0.1], [0.2], [0.3], [0.4]])})
         if variant in ("obs", "both"):
-            batch = append_obs_batch(batch, {"pinn_in": jnp.array([[0.2], [0.4]]), "val": jnp.array([[1.0], [0.5]]), "eq_params": {}})
+            batch = append_obs_batch(batch, {"pinn_in": jnp.array([[0.2], [0.4], [0.6], [0.8]]), "val": jnp.array([[1.0], [0.5], [0.25], [0.1]]),
+                                             "eq_params": {}})   # as many rows as the parameter batch
         return loss, params, batch, False
     raise ValueError(name)
 
